@@ -453,6 +453,36 @@ def chkv(cn, v, model, key, **ctx):
         R.fail(key, cls=cn, got=got, want=model, **ctx)
 
 
+ROW_PARENT = {"IntArray": ("V3iArray", "y", lambda v, j: I.V3i(5000 + j, v, -9 - j)),
+              "FloatArray": ("V3fArray", "z", lambda v, j: I.V3f(5000.5 + j, -9.5 - j, v)),
+              "V2iArray": ("Box2iArray", "min", lambda v, j: I.Box2i(v, I.V2i(900000 + j, 900001))),
+              "V2fArray": ("Box2fArray", "max", lambda v, j: I.Box2f(I.V2f(-900000.5 - j, -900001.5), v))}
+
+
+def make_row_source(ecls, mk, m, kind):
+    """an `ecls` array of m elements mk(60), mk(61), ... stored densely, as a strided view into a parent array, or as a
+    masked reference into a longer array"""
+    if kind == "dense":
+        src = getattr(I, ecls)(m)
+        for j in range(m):
+            src[j] = mk(60 + j)
+        return src
+    if kind == "strided":
+        if ecls not in ROW_PARENT or not hasattr(I, ROW_PARENT[ecls][0]):
+            return None
+        pn, attr, wrap = ROW_PARENT[ecls]
+        p = getattr(I, pn)(m)
+        for j in range(m):
+            p[j] = wrap(mk(60 + j), j)
+        return getattr(p, attr)
+    full = getattr(I, ecls)(2 * m + 1)
+    mv = []
+    for q in range(2 * m + 1):
+        full[q] = mk(60 + q // 2) if q % 2 else mk(700 + q)
+        mv.append(q % 2)
+    return full[int_array(mv)]
+
+
 def scen_varray(cn, ecls, mk, init, L):
     if not hasattr(I, cn):
         return
@@ -491,19 +521,22 @@ def scen_varray(cn, ecls, mk, init, L):
                     bm[i % L][n - 1] = canon(mk(90))
                     chkv(cn, b, bm, "varray.row_view:%s:write_through" % cn, L=L, i=i)
                 # item assignment: same length ok, other lengths must raise
-                for dn in (0, 1):
+                # the source in three representations: dense, strided component view (V3iArray.y ...), masked reference
+                for dn, srckind in ((0, "dense"), (1, "dense"), (0, "strided"), (1, "strided"), (0, "masked"), (1, "masked")):
                     b, bm = mkv(cn, mk, init, sizes)
-                    src = getattr(I, ecls)(n + dn)
-                    for j in range(n + dn):
-                        src[j] = mk(60 + j)
+                    src = make_row_source(ecls, mk, n + dn, srckind)
+                    if src is None:
+                        continue
+                    R.cls("varray_row_source_" + srckind)
+                    tag = "" if srckind == "dense" else "[%s_source]" % srckind
                     ex = raises(lambda: b.__setitem__(i, src))
                     if dn == 0:
                         if ex:
-                            R.fail("varray.setitem(int,array):%s:raised" % cn, L=L, i=i, exc=ex)
+                            R.fail("varray.setitem(int,array)%s:%s:raised" % (tag, cn), L=L, i=i, exc=ex)
                         bm[i % L] = [canon(mk(60 + j)) for j in range(n)]
                     elif not ex:
-                        R.fail("varray.setitem(int,array):%s:no_raise_wrong_length" % cn, L=L, i=i)
-                    chkv(cn, b, bm, "varray.setitem(int,array):%s:wrong_selection" % cn, L=L, i=i, dn=dn)
+                        R.fail("varray.setitem(int,array)%s:%s:no_raise_wrong_length" % (tag, cn), L=L, i=i)
+                    chkv(cn, b, bm, "varray.setitem(int,array)%s:%s:wrong_selection" % (tag, cn), L=L, i=i, dn=dn)
         except Exception as e:
             if ok:
                 R.fail("varray.getitem(int):%s:raised_in_range" % cn, L=L, i=i, exc=repr(e))
